@@ -274,14 +274,17 @@ def build_harness(bin_name, features=None, hooks=False, timeout=1500):
         env['RUSTFLAGS'] = GUARD_RUSTFLAGS
     with Lock('cargo' + ('-hooks' if hooks else '')):
         if not os.path.exists(lock):
-            shutil.copy(os.path.join(REPO, 'Cargo.lock'), lock)
+            # Cargo.lock is untracked in /repo, so a scratch git worktree (VERIF_REPO) does not have it
+            src = os.path.join(REPO, 'Cargo.lock')
+            shutil.copy(src if os.path.exists(src) else '/repo/Cargo.lock', lock)
         cmd = ['cargo', 'build', '--offline', '--release', '--bin', bin_name]
         if features == 'seq':
             cmd += ['--no-default-features']
             env['CARGO_TARGET_DIR'] = target + '-seq'
         rc, out = sh(cmd, timeout, cwd=hd, env=env)
         if rc != 0 and 'Cargo.lock' in out:
-            shutil.copy(os.path.join(REPO, 'Cargo.lock'), lock)
+            src = os.path.join(REPO, 'Cargo.lock')
+            shutil.copy(src if os.path.exists(src) else '/repo/Cargo.lock', lock)
             rc, out = sh(cmd, timeout, cwd=hd, env=env)
     if rc != 0:
         return None, out
